@@ -284,11 +284,19 @@ def gen_get_at(rng):
 
 
 def gen_argfind(rng):
-    n = rng.randint(1, 3)
+    n = rng.randint(1, 4)
     names, sizes = pick_axes(rng, n)
     op = rng.choice(["argmax", "argmin"])
-    red = [nm for nm in names if rng.random() < 0.5] or [names[0]]
+    # several bracketed axes, adjacent and non-adjacent (gaps of one and more), at either end and in the middle
+    k = rng.choice([1, 1, 2, 2, 2, 3]) if n > 1 else 1
+    red = sorted(rng.sample(range(n), min(k, n)))
+    red = [names[i] for i in red]
     items = [f"[{nm}]" if nm in red else nm for nm in names]
+    if len(red) >= 2 and rng.random() < 0.3:
+        # a multi-axis bracket group
+        i = names.index(red[0])
+        if names[i + 1:i + 2] == red[1:2]:
+            items[i:i + 2] = [f"[{red[0]} {red[1]}]"]
     keep = [nm for nm in names if nm not in red]
     rng.shuffle(keep)
     if len(red) == 1 and rng.random() < 0.5:
@@ -297,7 +305,7 @@ def gen_argfind(rng):
         pos = rng.randrange(len(keep) + 1)
         o = keep[:pos] + [f"[{len(red)}]"] + keep[pos:]
         desc = f"{' '.join(items)} -> {' '.join(o)}"
-    return {"op": op, "family": "argfind", "desc": desc, "shapes": [tuple(sizes[x] for x in names)], "kwargs": {}, "note": []}
+    return {"op": op, "family": "argfind", "desc": desc, "shapes": [tuple(sizes[x] for x in names)], "kwargs": {}, "note": [f"brackets={len(red)}"]}
 
 
 def gen_preserve(rng):
@@ -320,7 +328,7 @@ def gen_preserve(rng):
     return {"op": op, "family": "preserve_shape", "desc": desc, "shapes": [tuple(sizes[x] for x in names)], "kwargs": kwargs, "note": []}
 
 
-GENS = [(gen_id, 5), (gen_id_concat, 1), (gen_id_ellipsis, 1), (gen_reduce, 3), (gen_elementwise, 3), (gen_dot, 2), (gen_get_at, 1), (gen_argfind, 1), (gen_preserve, 1)]
+GENS = [(gen_id, 5), (gen_id_concat, 1), (gen_id_ellipsis, 1), (gen_reduce, 3), (gen_elementwise, 3), (gen_dot, 2), (gen_get_at, 1), (gen_argfind, 2), (gen_preserve, 1)]
 
 
 def gen_call(rng, families=None):
